@@ -146,7 +146,7 @@ def run_parse_async_stream(ctx, boundary, pieces, delays=None, file_factory=None
     return res
 
 
-def run_wsgi_form(ctx, ct, pieces):
+def run_wsgi_form(ctx, ct, pieces, in_handler=False, body_first=False):
     from baize.wsgi import Request
     body = b"".join(pieces)
     req_abs = AbstractRequest("POST", "/", headers=[("content-type", ct), ("content-length", str(len(body)))], body=body)
@@ -154,7 +154,16 @@ def run_wsgi_form(ctx, ct, pieces):
     inp = ChunkedInput(pieces)
     peer.environ["wsgi.input"] = inp
     req = Request(peer.environ)
-    items = req.form.multi_items()
+    if body_first:      # the raw body was looked at (logging, a signature check) before the form
+        req.body
+    if in_handler:
+        # the application looks at the form while it handles another exception (try: request.json / except: request.form)
+        try:
+            raise LookupError("the application's own exception, being handled")
+        except LookupError:
+            items = req.form.multi_items()
+    else:
+        items = req.form.multi_items()
     # the application keeps the parsed items, not the request: the uploads must stay readable after the request and the
     # form mapping are gone (reference counting frees them right here)
     del req
@@ -166,7 +175,7 @@ def run_wsgi_form(ctx, ct, pieces):
                 v.close()
 
 
-def run_asgi_form(ctx, ct, pieces, delays=None):
+def run_asgi_form(ctx, ct, pieces, delays=None, in_handler=False, body_first=False):
     from baize.asgi import Request
     body = b"".join(pieces)
     msgs = []
@@ -177,7 +186,15 @@ def run_asgi_form(ctx, ct, pieces, delays=None):
         req_abs = AbstractRequest("POST", "/", headers=[("content-type", ct), ("content-length", str(len(body)))], body=body)
         peer = AsgiHttpPeer(loop, ctx, ctx.sched, req_abs, msgs, complete_disconnects=False)
         req = Request(peer.scope, peer.receive, peer.send)
-        items = (await req.form).multi_items()
+        if body_first:
+            await req.body
+        if in_handler:
+            try:
+                raise LookupError("the application's own exception, being handled")
+            except LookupError:
+                items = (await req.form).multi_items()
+        else:
+            items = (await req.form).multi_items()
         del req
         try:
             return await items_of_async(items), peer.recv_calls
@@ -188,3 +205,67 @@ def run_asgi_form(ctx, ct, pieces, delays=None):
 
     res, loop = run_sim(scenario, ctx.sched, ctx, vcap=100000.0, step_cap=2_000_000)
     return res
+
+
+class Abandon(Exception):
+    """The producer of a request body fails / the client goes away in the middle of the body."""
+
+
+def abandoned_requests(ctx, boundary, ct, body, cut, delays=None):
+    """History before a healthy request: on every streaming surface one request is abandoned after `cut` bytes of a
+    well-formed body (producer exception, wsgi.input error, client disconnect).  Whatever they raise is theirs; nothing of
+    them may show up in a later request."""
+    from baize.asgi import Request as ARequest
+    from baize.datastructures import UploadFile
+    from baize.multipart_helper import parse_async_stream, parse_stream
+    from baize.wsgi import Request as WRequest
+    head = body[:cut]
+    pieces = [head[:len(head) // 2], head[len(head) // 2:]]
+
+    def producer():
+        for p in pieces:
+            yield p
+        raise Abandon("producer failed")
+
+    def quiet(fn):
+        try:
+            fn()
+        except Exception as e:  # noqa
+            ctx.ev("abandoned", type(e).__name__)
+
+    quiet(lambda: parse_stream(producer(), boundary.encode("latin-1"), "utf8", file_factory=UploadFile))
+
+    async def aproducer():
+        for p in pieces:
+            yield p
+        raise Abandon("producer failed")
+
+    async def scenario(loop):
+        try:
+            await parse_async_stream(aproducer(), boundary.encode("latin-1"), "utf8", file_factory=UploadFile)
+        except Exception as e:  # noqa
+            ctx.ev("abandoned", type(e).__name__)
+        req_abs = AbstractRequest("POST", "/", headers=[("content-type", ct), ("content-length", str(len(body)))], body=body)
+        msgs = [{"type": "http.request", "body": p, "more_body": True, "delay": 0.0} for p in pieces] + [{"type": "http.disconnect", "delay": 0.0}]
+        peer = AsgiHttpPeer(loop, ctx, ctx.sched, req_abs, msgs, complete_disconnects=False)
+        try:
+            await ARequest(peer.scope, peer.receive, peer.send).form
+        except Exception as e:  # noqa
+            ctx.ev("abandoned", type(e).__name__)
+
+    run_sim(scenario, ctx.sched, ctx, vcap=100000.0, step_cap=2_000_000)
+
+    def wsgi():
+        req_abs = AbstractRequest("POST", "/", headers=[("content-type", ct), ("content-length", str(len(body)))], body=body)
+        peer = WsgiPeer(ctx, ctx.sched, req_abs, short_reads=False)
+        inp = ChunkedInput(pieces + [b"x"])
+
+        def on_read(delivered):
+            if delivered >= len(head):
+                raise TimeoutError("injected: read timed out")
+
+        inp.on_read = on_read
+        peer.environ["wsgi.input"] = inp
+        WRequest(peer.environ).form
+
+    quiet(wsgi)
